@@ -63,8 +63,27 @@ def monitor (impl : String) : String :=
   | _, _, _, _, _ =>
     if impl.startsWith "PANIC" ∨ impl.startsWith "CRASH" then "-" else "VIOL unparsable: " ++ impl
 
+/-- `cfire n rounds`: in every round n real goroutines fire a fresh Event at the same time.  By
+    `fire_true_for_exactly_one` (all calls returned, at least one call) exactly one is told true in
+    every round, whatever the interleaving; the event is fired and its channel closed afterwards. -/
+def monitorStress (impl : String) : String :=
+  match (field impl "bad") >>= String.toNat?, (field impl "maxtrue") >>= String.toNat?,
+        (field impl "unfired") >>= String.toNat? with
+  | some bad, some mx, some unfired =>
+    if mx > 1 then s!"VIOL {mx} concurrent Fire calls on one event were all told true"
+    else if bad > 0 then "VIOL concurrent Fire calls: no caller was told true"
+    else if unfired > 0 then "VIOL after Fire returned the event is not fired / Done() not closed"
+    else "ok"
+  | _, _, _ => if impl.startsWith "PANIC" ∨ impl.startsWith "CRASH" then "-" else "VIOL unparsable: " ++ impl
+
 def step : Step DSt := fun d fs impl =>
   match fs with
+  | ["cfire", n, r] =>
+    match n.toNat?, r.toNat? with
+    | some n, some r =>
+      if n < 1 ∨ n > 64 ∨ r < 1 then (d, "bad-op", "-")
+      else (d, s!"rounds={r} bad=0 maxtrue=1 unfired=0", monitorStress impl)
+    | _, _ => (d, "bad-op", "-")
   | ["step", n] =>
     match n.toList.head? with
     | some kind =>
